@@ -15,7 +15,9 @@
 // = "other-chain-<n>", chain 0 = the queue's chain) and claim them when signing; signatures are
 // submitted in every byte form (q06Wires), not only as crypto.Sign renders them; queues grow beyond
 // the page size of the queries (opPutN, directed valset_behind_backlog); evidence is re-submitted
-// (TestC13Prune).  Monitors evaluate the property on what the harness itself did and saw registered,
+// (TestC13Prune); batch confirmations are delivered by transactions whose creator is NOT the
+// orchestrator they name, and blocks pass while signed messages sit in the queue (c06_aging_test.go).
+// Monitors evaluate the property on what the harness itself did and saw registered,
 // never on what the implementation stored.
 package harness
 
@@ -609,6 +611,10 @@ type q06Case struct {
 	prevBytes map[uint64]string
 	changed   bool // queue changed since the relay sets were last compared
 	mevOf     map[uint64]bool
+	// batches: confirmations (signature/orchestrator) and checkpoint seen at the previous observation
+	prevBConf  map[uint64]map[string]bool
+	prevBBytes map[uint64]string
+	aged       int // blocks this case let pass (opBlocks)
 }
 
 func (c *q06Case) op(line, out string) {
@@ -870,7 +876,14 @@ func (c *q06Case) track() {
 			c.fx.t.Fatal(err)
 		}
 		seenO, seenK := map[string]bool{}, map[string]bool{}
+		curB := map[string]bool{}
 		for _, cf := range confs {
+			// nothing carried over a change of the checkpoint, whoever delivered the confirmation
+			bk := cf.Signature + "/" + cf.Orchestrator
+			curB[bk] = true
+			if pb, ok := c.prevBBytes[n]; ok && pb != hx && c.prevBConf[n][bk] {
+				c.hit("batch_no_carry_over", fmt.Sprintf("batch %d: confirmation of %s (delivered by %s) kept although the checkpoint changed", n, cf.Orchestrator, cf.Metadata.Creator))
+			}
 			sig, err := hex.DecodeString(cf.Signature)
 			okSig := false
 			if err == nil {
@@ -892,6 +905,7 @@ func (c *q06Case) track() {
 			}
 			seenO[cf.Orchestrator], seenK[k] = true, true
 		}
+		c.prevBBytes[n], c.prevBConf[n] = hx, curB
 	}
 }
 
@@ -1577,31 +1591,7 @@ func (c *q06Case) opBatchConfirm(nonce uint64, valIdx, addr, by int, ref string)
 }
 
 func (c *q06Case) opBatchConfirmW(nonce uint64, valIdx, addr, by int, ref, wire string) string {
-	var cur []byte
-	if b := c.batch(nonce); b != nil {
-		cur, _ = b.GetCheckpoint(c.fx.turnstone)
-	}
-	bts := c.refBytes(c.bhist[nonce], cur, ref)
-	var sig []byte
-	if by >= 1 && by <= len(c.fx.ethKeys) {
-		sig, _ = skytypes.NewEthereumSignature(bts, c.fx.ethKeys[by-1])
-	} else {
-		sig = make([]byte, 65)
-		c.r.Rng.Read(sig[:64])
-	}
-	sig = q06WireForm(sig, wire)
-	v := c.fx.fa.Vals[valIdx]
-	err := c.route(&skytypes.MsgConfirmBatch{Nonce: nonce, TokenContract: q06Token, EthSigner: c.fx.addrStr[addr], Orchestrator: v.Addr.String(),
-		Signature: hex.EncodeToString(sig), Metadata: FAMeta(v.Addr, v.Addr)})
-	res := q06ConfErr(err)
-	line := fmt.Sprintf("bconf %d %d %d %d %s", nonce, c.fx.valID[valIdx], addr, by, ref)
-	if wire != "c" {
-		line += " " + wire
-		c.r.Stat("bconf.wire." + wire + "." + strings.SplitN(res, ":", 2)[0])
-	}
-	c.op(line, res+" "+c.showBatch(nonce))
-	c.r.Stat("bconf." + strings.SplitN(res, ":", 2)[0])
-	return res
+	return c.opBatchConfirmC(nonce, valIdx, addr, by, ref, wire, nil)
 }
 
 func (c *q06Case) opBatchGas(nonce uint64, g uint64) {
@@ -1622,7 +1612,8 @@ func (c *q06Case) opBatchGas(nonce uint64, g uint64) {
 // begin clears the queue, learns the id counter and synchronises the model.
 func (fx *q06Fix) begin(ctx sdk.Context, r *Rec) *q06Case {
 	c := &q06Case{fx: fx, r: r, ctx: ctx, hist: map[uint64][]string{}, bhist: map[uint64][]string{}, keyAtSign: map[string][]byte{},
-		prevSigs: map[uint64]map[string]bool{}, prevBytes: map[uint64]string{}, mevOf: map[uint64]bool{}}
+		prevSigs: map[uint64]map[string]bool{}, prevBytes: map[uint64]string{}, mevOf: map[uint64]bool{},
+		prevBConf: map[uint64]map[string]bool{}, prevBBytes: map[uint64]string{}}
 	k := fx.fa.App().ConsensusKeeper
 	for _, m := range c.msgs() {
 		if err := k.DeleteJob(ctx, fx.queue, m.GetId()); err != nil {
@@ -1963,7 +1954,9 @@ func (c *q06Case) runOps(focus string, nOps int) {
 						addr, by = a.addr, a.raw/4
 					}
 				}
-				c.opBatchConfirmW(n, valIdx, addr, by, ref, wire)
+				// the transaction that delivers the confirmation: the orchestrator's own, another
+				// validator's, or an ordinary account's
+				c.opBatchConfirmC(n, valIdx, addr, by, ref, wire, c.c06xGenCreator(valIdx))
 			case x < 98:
 				c.genTakeover()
 			default:
@@ -2183,6 +2176,7 @@ func q06RunTest(t *testing.T, prop string) {
 	}
 	if prop == "C06" {
 		q06Directed(t, r, fx)
+		c06xCases(t, r, fx)
 	} else {
 		q14Directed(t, r, fx)
 	}
